@@ -158,6 +158,9 @@ func vfNthPerm(n, k int) []int {
 // vfExploreTree runs FindRedirects on the tree under every iteration order within the deviation bound.
 func vfExploreTree(run *verifrt.Run, root string, files []vfFileSpec, bound int, orders map[string]bool) {
 	vfWriteTree(root, files)
+	// FindRedirects ends the process on a file it cannot read or parse (log.Fatal): the journal attributes such a
+	// death to this tree, and the driver replays the tree alone
+	verifrt.JournalJSON(vf20Case{files, nil})
 	want := vfRefScan(root)
 	baseline := "" // the table of the first execution (canonical iteration order); any deterministic order is acceptable
 	first := true
@@ -252,6 +255,8 @@ func TestVerifC20(t *testing.T) {
 			sort.Slice(b, func(i, j int) bool { return b[i][0]+b[i][1] < b[j][0]+b[j][1] })
 			if fmt.Sprint(a) != fmt.Sprint(b) {
 				run.Violate("wrong-entries", "entries "+verifrt.JSONKey(rp), fmt.Sprintf("table %v, annotations %v", got, want), rp)
+			} else if fmt.Sprint(got) != fmt.Sprint(base) && len(rp.Perms) == 0 {
+				run.Violate("repeat-call-differs", "repeat "+verifrt.JSONKey(rp.Files), fmt.Sprintf("two calls on fresh Contexts over the same tree under the same iteration order: table %v, then %v", got, base), rp)
 			} else if fmt.Sprint(got) != fmt.Sprint(base) {
 				run.Violate("order-not-reproducible", "order "+verifrt.JSONKey(rp.Files), fmt.Sprintf("table %v under the recorded iteration order, %v under the canonical one", got, base), rp)
 			}
